@@ -1122,7 +1122,8 @@ def _judge_problem(case, n, problems):
             skeys = [kk for kk, _ in so]
             ckeys = [l for l, _, _ in subs]
             if sorted(map(str, skeys)) != sorted(map(str, ckeys)):
-                problems.append(f"sub-observable keys {skeys} differ from subcircuit keys {ckeys}")
+                problems.append(f"sub-observable keys {skeys} differ from subcircuit keys {ckeys}"
+                                + _generation_note(case))
             # tensor product of the sub-observables over the returned subcircuits = original observable
             for j, o in enumerate(obs):
                 rec = [0] * n
@@ -1138,6 +1139,18 @@ def _judge_problem(case, n, problems):
                 if rec != o[1]:
                     problems.append(f"observable {j}: tensor product over the subcircuits {rec} differs from the original {o[1]}")
     return dict(violates=bool(problems), detail="; ".join(problems) or "cuts, structure, sub-observable keys and tensor product ok")
+
+
+def _generation_note(case):
+    """informative only: what the next pipeline stage does with the returned problem"""
+    try:
+        from qiskit_addon_cutting import generate_cutting_experiments
+        labels = None if case["labels"] is None else [untag(t) for t in case["labels"]]
+        r = partition_problem(build(case["desc"]), labels, mk_plist(case["obs"]))
+        generate_cutting_experiments(r.subcircuits, r.subobservables, num_samples=4)
+        return " (generate_cutting_experiments accepts it)"
+    except Exception as e:  # noqa: BLE001
+        return f" (generate_cutting_experiments on this result raises {type(e).__name__}: {str(e)[:60]})"
 
 
 def _is_preplaced_qpd1(circ, i):
